@@ -2985,3 +2985,139 @@ func init() {
 	addDoc("C02", "R02k (= C01 R01e) record bytes are a fresh json.Marshal result. R02l the strings.TrimSpace of the normaliser is controlled by the declaration and the value's kind only, never by a test of its characters.")
 	addDoc("C05", "R05n (= C09 R09a/R09i/R09j) borrowed-buffer discipline.")
 }
+
+// ---------------------------------------------------------------- process-wide mutable cells read on the run path
+
+// mutableGlobalReads generalises R19g to the whole run set: a package-level variable that is written after package
+// initialisation — by a plain store or by sync/atomic Store/Swap/CompareAndSwap (atomic.Value included) — and READ on
+// the NewTransform/Read path is a channel from earlier records, earlier transforms and other goroutines into this
+// record, however race-free the individual accesses are (seed C10-14: "last compiled dynamic xpath" kept in two
+// atomic.Values; a reader can pair one transform's string with another's expression). Not reads in this sense: the
+// result of an atomic Add (a fresh identity), sync.Pool and keyed-cache objects (their own rules: R12/R13), and
+// variables whose writers are reachable from package initialisers only.
+func mutableGlobalReads(c *core.Ctx, rule string) {
+	e := entries(c, rule)
+	if e == nil {
+		return
+	}
+	cg := c.CallGraph()
+	var initOnly func(f *ssa.Function, depth int, seen map[*ssa.Function]bool) bool
+	initOnly = func(f *ssa.Function, depth int, seen map[*ssa.Function]bool) bool {
+		for g := f; g != nil; g = g.Parent() {
+			if (g.Synthetic != "" && g.Name() == "init") || (strings.HasPrefix(g.Name(), "init#") && g.Signature.Recv() == nil) {
+				return true
+			}
+		}
+		if depth > 5 || seen[f] {
+			return false
+		}
+		seen[f] = true
+		if o := f.Object(); o == nil || o.Exported() {
+			return false
+		}
+		n := cg.Nodes[f]
+		if n == nil || len(n.In) == 0 {
+			return false
+		}
+		for _, in := range n.In {
+			if !initOnly(in.Caller.Func, depth+1, seen) {
+				return false
+			}
+		}
+		return true
+	}
+	mut := map[*ssa.Global]string{}
+	for _, f := range c.RepoFunctions() {
+		if core.IsCLIOrSample(core.FuncPkg(f)) || initOnly(f, 0, map[*ssa.Function]bool{}) {
+			continue
+		}
+		for _, w := range core.Writes(f) {
+			if w.Global != nil && core.InRepo(w.Global.Pkg.Pkg) && w.Kind == "global" {
+				if _, ok := mut[w.Global]; !ok {
+					mut[w.Global] = core.FuncKey(f)
+				}
+			}
+		}
+		for _, ci := range core.Calls(f) {
+			o := core.CalleeObj(ci)
+			if o == nil || o.Pkg() == nil || o.Pkg().Path() != "sync/atomic" {
+				continue
+			}
+			name := o.Name()
+			if !(strings.HasPrefix(name, "Store") || strings.HasPrefix(name, "Swap") || strings.HasPrefix(name, "CompareAndSwap")) {
+				continue
+			}
+			if len(ci.Common().Args) == 0 {
+				continue
+			}
+			_, root := core.TraceAddr(ci.Common().Args[0])
+			if g, ok := root.(*ssa.Global); ok && core.InRepo(g.Pkg.Pkg) {
+				if _, ok := mut[g]; !ok {
+					mut[g] = core.FuncKey(f) + " (sync/atomic " + core.FuncName(o) + ")"
+				}
+			}
+		}
+	}
+	n := 0
+	for _, f := range repoFuncsIn(e.run) {
+		done := map[*ssa.Global]bool{}
+		for _, b := range f.Blocks {
+			for _, in := range b.Instrs {
+				for _, op := range in.Operands(nil) {
+					g, ok := (*op).(*ssa.Global)
+					if !ok || !core.InRepo(g.Pkg.Pkg) || strings.HasSuffix(g.Name(), "$guard") || done[g] {
+						continue
+					}
+					el := g.Type().(*types.Pointer).Elem()
+					if externRefOK(el) || externRefOK(types.NewPointer(el)) {
+						continue
+					}
+					read := false
+					switch x := in.(type) {
+					case *ssa.UnOp:
+						read = x.Op == token.MUL
+					case ssa.CallInstruction:
+						if o := core.CalleeObj(x); o != nil && o.Pkg() != nil && o.Pkg().Path() == "sync/atomic" {
+							read = strings.HasPrefix(o.Name(), "Load")
+						}
+					}
+					if !read {
+						continue
+					}
+					w, isMut := mut[g]
+					if !isMut {
+						continue
+					}
+					done[g] = true
+					n++
+					c.Bad(rule, core.FuncKey(f)+" reads process-wide cell "+g.Name(), core.InstrPos(in), "package-level variable "+g.Name()+" is read on the NewTransform/Read path and written after package initialisation by "+w+": what this record sees depends on earlier records, earlier transforms and concurrent goroutines, not on the record alone")
+				}
+			}
+		}
+	}
+	c.OK(rule, "no run-path read of a process-wide mutable cell", 0, fmt.Sprintf("%d package-level variable(s) with a non-initialiser writer, %d run-path read(s) of them", len(mut), n))
+}
+
+func init() {
+	for _, pr := range [][2]string{{"C10", "R10q"}, {"C13", "R13j"}, {"C15", "R15o"}} {
+		pr := pr
+		wrapRun(pr[0], func(c *core.Ctx) {
+			if c.CountRule(pr[1]) == 0 {
+				mutableGlobalReads(c, pr[1])
+			}
+		})
+		addDoc(pr[0], pr[1]+" no package-level variable with a non-initialiser writer (plain store or sync/atomic Store/Swap/CompareAndSwap) is read on the run path (keyed caches, pools and the result of an atomic Add excepted).")
+	}
+}
+
+func init() {
+	wrapRun("C10", func(c *core.Ctx) {
+		// R10r (= C06 R06a): the text of every column node comes from the current row (a record tree refilled in place keeps
+		// columns of the row before it: seed C10-15)
+		if c.CountRule("R10r") == 0 {
+			importRules(c, "C06", map[string]string{"R06a": "R10r"})
+			c.Floor("R10r", 4, "conveyance of column text in the csv / fixed-length readers")
+		}
+	})
+	addDoc("C10", "R10r (= C06 R06a) column text is conveyed from the current row/line only.")
+}
